@@ -50,3 +50,17 @@ pub fn btree_range<'a, T: Types>(m: &'a BTreeMap<u64, LogData<T>>, from: u64, to
 pub fn u64_max(a: u64, b: u64) -> (r: u64) ensures r == (if a >= b { a } else { b }) { if a >= b { a } else { b } }
 */
 pub fn u64_min(a: u64, b: u64) -> (r: u64) ensures r == (if a <= b { a } else { b }) { if a <= b { a } else { b } }
+
+/// stand-in for `I: IntoIterator<Item = (LogId, Payload)>` of the batch `append` (rule E7: `for (id, p) in entries` is desugared to
+/// repeated `next_entry()`); the next entry is arbitrary, so the loop contract holds for every batch.
+/// ASSUMED of the entries: index < u64::MAX (finding D6) and the user law payload_size < 2^61.
+pub trait EntrySource<T: Types>: Sized {
+    fn next_entry(&mut self) -> (r: Option<(T::LogId, T::LogPayload)>)
+        ensures r is Some ==> idx::<T>(r->Some_0.0) < u64::MAX && payload_small::<T>(r->Some_0.1);
+}
+/// `seg` is the segment of the record most recently journaled by this WAL: the last record of the open chunk, or — when that
+/// write filled the chunk — the last record of the chunk that was just closed (the open chunk then holds only its head)
+pub open spec fn seg_is_last_record<T: Types>(wal: RaftLogWAL<T>, seg: Segment) -> bool {
+    if wal.open.chunk.offs().len() >= 3 { seg == wal.open.chunk.sp_last_seg() }
+    else { exists|k: ChunkId| #[trigger] wal.closed@.contains_key(k) && wal.closed@[k].chunk.offs().len() >= 2 && wal.closed@[k].chunk.sp_end() == wal.open.chunk.sp_start() && seg == wal.closed@[k].chunk.sp_last_seg() }
+}
